@@ -70,6 +70,39 @@ func (m *Monitor) doRespConnect(r *mReq, msg *stun.Message, ok bool, code int, I
 			if dup && code != 446 {
 				m.v([]string{"C16"}, "dup-connect-wrong-answer", kv("code", itoa(code)), "second Connect to %s answered %d, want 446", ustr(peer), code)
 			}
+			// 446 means "this allocation already has a connection to that peer". When this is the
+			// first Connect the client ever sent for the peer, the allocation never had a connection
+			// to or from it, and another client's allocation does hold one, the answer was taken
+			// from the other allocation's state.
+			if code == 446 && m.connectReqs[r.Client+"|"+ustr(peer)] == 1 {
+				own := false
+				for _, t := range def.TCPs {
+					if t.Peer == ustr(peer) {
+						own = true
+					}
+				}
+				for _, rc := range m.relayConns {
+					if rc.RelayKey == def.RelayKey && rc.Peer == ustr(peer) && !rc.Outbound {
+						own = true
+					}
+				}
+				other := ""
+				for _, as := range m.M.Allocs {
+					for _, a := range as {
+						if a == def || a.Client == def.Client {
+							continue
+						}
+						for _, t := range a.TCPs {
+							if t.Peer == ustr(peer) && !t.Closed && !t.peerGone() && t.Created.Hi < I.Lo {
+								other = a.Client
+							}
+						}
+					}
+				}
+				if !own && other != "" {
+					m.v([]string{"C04", "C16"}, "cross-talk", kv("what", "connect"), "first Connect of %s to %s answered 446: only the allocation of %s has a connection to that peer", r.Client, ustr(peer), other)
+				}
+			}
 		}
 		return
 	}
